@@ -274,7 +274,7 @@ def _placeholder(path):
 
 def check_case(ctx, path, s, is_num=False):
     """s is the leaf (str, or a number when is_num)."""
-    original = str(s)
+    original = str.__str__(s) if isinstance(s, str) else str(s)   # (a str subclass is the text it holds, whatever its own str() says)
     parts, tagseq, n = _placeholder(path)
     if n == 0:
         ctx.violation("text-leaf-not-emitted", "path %s: a leaf placed as a child does not occur in the output at all" % path, {"path": path, "leaf": original[:300]})
@@ -458,6 +458,9 @@ def _run(ctx):
         else:
             cls = rng.choice(["word", "meta", "markup", "ws", "nl", "exotic", "mixed", "empty", "long", "backslash", "backslash"])
             s = gen.text_of(rng, cls)
+            if rng.random() < 0.06:
+                s = gen.FormatStr(s) if rng.random() < 0.5 else gen.StrSub(s)    # a str subclass (one of them with a str()/format() of its own)
+                ctx.count("str_subclass_leaves")
             check_case(ctx, pth, s)
-            ctx.case(nontrivial=bool(set(s) & set("&<>")), dg=pth + "\0" + s)
+            ctx.case(nontrivial=bool(set(s) & set("&<>")), dg=pth + "\0" + str.__str__(s))
             ctx.state("path_x_class", (pth, cls))
